@@ -20,6 +20,7 @@ H, W = 48, 64  # non-square on purpose (an H/W swap in one framework changes sha
 K = 3
 EDGES = [(0, 1), (1, 2)]
 BIG_HW = (80, 96)  # size-matcher target: hratio 1.667, wratio 1.5 -> eff_scale 1.5, target 72x96, 8 rows of padding
+SMALL_HW = (44, 56)  # frame size of every second video in the "sizes" multi-video label sets
 RGB_TINT = (1.0, 0.8, 0.6)  # distinct channels (sleap-io collapses an R=G=B source to one channel)
 
 _A0 = np.array([[14.3, 11.7], [22.1, 18.4], [30.6, 13.2]])
@@ -89,6 +90,8 @@ def build_frames(labelset, src_rgb, slots=None, multi_video=False):
         fr = {"image": img, "instances": users}
         if multi_video:  # every labelled frame is frame 0 of its own video (frame indices collide across videos)
             fr["video"] = f
+            if multi_video == "sizes" and f % 2 == 1:  # ... and the videos have different frame sizes (all points stay inside)
+                fr["image"] = np.ascontiguousarray(img[:SMALL_HW[0], :SMALL_HW[1]])
         frames.append(fr)
         predicted.append(preds)
     return frames, predicted
@@ -193,17 +196,21 @@ def sample_digest(model, s):
 # configuration objects
 
 
-def data_config(case):
+def data_config(case, max_hw=None):
     from omegaconf import DictConfig
 
+    # cfg_dim: the user states ONE of preprocessing.max_height / max_width, with exactly the value both frameworks
+    # are given through max_hw anyway (so the documented target is the same for both); the other stays None
+    mh = int(max_hw[0]) if case.get("cfg_dim") == "height" else None
+    mw = int(max_hw[1]) if case.get("cfg_dim") == "width" else None
     return DictConfig(
         {
             "user_instances_only": bool(case.get("user_only", True)),
             "preprocessing": {
                 "is_rgb": bool(case["is_rgb"]),
                 # both frameworks are told the size-matcher target through `max_hw` (ModelTrainer passes it to both)
-                "max_height": None,
-                "max_width": None,
+                "max_height": mh,
+                "max_width": mw,
                 "scale": float(case["scale"]),
             },
         }
@@ -241,7 +248,7 @@ def run_dataset(case, slp, np_chunks, scratch):
     from sleap_nn.data import custom_datasets as cd
 
     labels = sio.load_slp(slp)
-    dc, head = data_config(case), head_config(case)
+    dc, head = data_config(case, resolved_max_hw(case, labels)), head_config(case)
     common = dict(
         labels=labels,
         data_config=dc,
@@ -281,8 +288,8 @@ def chunk_items(case, slp):
     from sleap_nn.data.providers import get_max_instances
 
     labels = sio.load_slp(slp)
-    dc = data_config(case)
     max_hw = resolved_max_hw(case, labels)
+    dc = data_config(case, max_hw)
     max_instances = get_max_instances(labels)
     uio = bool(case.get("user_only", True))
     scale = float(case["scale"])
